@@ -34,6 +34,8 @@ type csvRow struct {
 	F64  float64 `header:"f 64"`
 	When time.Time
 	Day  time.Time `format:"2006-01-02"`
+	Dmy  time.Time `format:"02/01/2006"`
+	Ydm  time.Time `format:"2006-02-01" header:"ydm"`
 	Tail string    `header:"tail,col"`
 }
 
@@ -80,6 +82,8 @@ func genCsvRow(rng *rand.Rand) *csvRow {
 		F64:  f64Pool[rng.Intn(len(f64Pool))],
 		When: time.Date(1970+rng.Intn(130), time.Month(1+rng.Intn(12)), 1+rng.Intn(28), rng.Intn(24), rng.Intn(60), rng.Intn(60), 0, time.UTC),
 		Day:  time.Date(2000+rng.Intn(60), time.Month(1+rng.Intn(12)), 1+rng.Intn(28), 0, 0, 0, 0, time.UTC),
+		Dmy:  time.Date(1990+rng.Intn(60), time.Month(1+rng.Intn(12)), 1+rng.Intn(28), 0, 0, 0, 0, time.UTC),
+		Ydm:  time.Date(1990+rng.Intn(60), time.Month(1+rng.Intn(12)), 1+rng.Intn(28), 0, 0, 0, 0, time.UTC),
 		Tail: strPool[rng.Intn(len(strPool))],
 	}
 	if rng.Intn(4) == 0 {
@@ -216,7 +220,7 @@ func (c11) Gen(rng *rand.Rand, tier string, k int) *Case {
 		c.Ops = append(c.Ops, OpSpec{Op: op, N: n, Seed: rng.Int63n(1 << 30)})
 	}
 	c.Ops = append(c.Ops, OpSpec{Op: "permuted", N: rng.Intn(5), Seed: rng.Int63n(1 << 30), From: rng.Intn(4)})
-	c.Ops = append(c.Ops, OpSpec{Op: "json", N: rng.Intn(6), Seed: rng.Int63n(1 << 30), From: rng.Intn(6)}) // From: element type
+	c.Ops = append(c.Ops, OpSpec{Op: "json", N: rng.Intn(6), Seed: rng.Int63n(1 << 30), From: rng.Intn(7)}) // From: element type
 	switch rng.Intn(4) {
 	case 0:
 		c.Frag = nil
@@ -302,7 +306,7 @@ func (c11) Run(c *Case, st *Stats) []Violation {
 	collect := func(ch <-chan *csvRow) []*csvRow {
 		var got []*csvRow
 		for {
-			simrt.Yield(-1, "cons-recv")
+			consYield()
 			r, ok := <-ch
 			if !ok {
 				return got
@@ -411,6 +415,23 @@ func (c11) Run(c *Case, st *Stats) []Violation {
 					st.Probes["permuted-header-documents-read"]++
 					st.Faults["fragmented-reads"] += r.Reads
 					st.cell("permuted", fragClass(c.Frag), c.Policy.Name)
+					// the same codec value then reads a document that lacks some of the columns: it
+					// must read it as a fresh codec does (nothing remembered from the earlier header)
+					if drop := 1 + rng.Intn(3); drop < len(perm) {
+						narrow := independentCsv(rows, perm[:len(perm)-drop], 0)
+						fresh, err := helper.NewCsv[csvRow](true)
+						if err != nil {
+							add("helper.Csv", "constructor-error", "-", err.Error())
+							return
+						}
+						want := collect(fresh.ReadFromReader(&FragReader{Data: narrow, ErrAt: -1}))
+						got2 := collect(codec.ReadFromReader(&FragReader{Data: narrow, Frag: c.Frag, ErrAt: -1}))
+						if ok, why := sameCsvRows(got2, want); !ok {
+							add("helper.Csv", "reused-codec-differs-from-fresh", "narrower-after-permuted", fmt.Sprintf("a document without columns %v read after one that had them: %s", perm[len(perm)-drop:], why))
+							return
+						}
+						st.Probes["narrower-documents-read-by-the-same-codec"]++
+					}
 					// the codec re-derives the column indexes per read: a later file read must still work
 					if exists {
 						ch, err := codec.ReadFromFile(path)
@@ -455,6 +476,12 @@ func (c11) Run(c *Case, st *Stats) []Violation {
 								v[k] = rng.Intn(2) == 0
 							}
 							ok, why = jsonRoundTrip(c, st, v, func(a, b bool) bool { return a == b })
+						case 6:
+							v := make([]any, op.N)
+							for k := range v {
+								v[k] = []any{nil, true, 1.5, -0.0, 1e300, "text", []any{1.0, "x"}, map[string]any{"a": 2.0, "b": []any{}}}[rng.Intn(8)]
+							}
+							ok, why = jsonRoundTrip(c, st, v, func(a, b any) bool { return reflect.DeepEqual(a, b) })
 						default:
 							v := make([][]string, op.N)
 							for k := range v {
@@ -501,7 +528,7 @@ func (c11) Run(c *Case, st *Stats) []Violation {
 					back := helper.JSONToChan[jsonRow](r)
 					var got []jsonRow
 					for {
-						simrt.Yield(-1, "cons-recv")
+						consYield()
 						v, ok := <-back
 						if !ok {
 							break
@@ -591,7 +618,7 @@ func jsonRoundTrip[T any](c *Case, st *Stats, vals []T, eq func(a, b T) bool) (b
 	back := helper.JSONToChan[T](r)
 	var got []T
 	for {
-		simrt.Yield(-1, "cons-recv")
+		consYield()
 		v, ok := <-back
 		if !ok {
 			break
